@@ -473,7 +473,7 @@ def _interval(ctx: Ctx, c: Collector) -> None:
             pr.append("the table of ancestors is not filled with the source group and every parent, numbered from 0")
         if not climber(gvar_d, destp, pz):
             pr.append("the candidates for the common group are not the destination group and its parents, innermost first")
-        okret = any(r.term[0] == "tuple" and len(r.term[1]) == 3 and unalias(r.term[1][0], gs, gfi) == pz.term and r.term[1][2] == gvar_d
+        okret = any(r.term[0] == "tuple" and len(r.term[1]) == 3 and unalias(r.term[1][0], gs, gfi) in (pz.term, ("idx", pz.term[1][1], pz.term[2][0])) and r.term[1][2] == gvar_d
                     and ("cmp", "isnot", pz.term, T.NONE) in [unalias(x, gs, gfi) for x in guard_terms(r.guards)] for r in rts)
         if not okret:
             pr.append("does not return (levels above the source, descent, common group) for the first destination ancestor found in the table")
